@@ -1,4 +1,5 @@
-CONSTANTS DS = 16  DE = 24  Mut = "DropExpired"
+\* seeded fault "DropExpired" of the migration model: TLC must report a violation of MigrationFaithful
+CONSTANTS DS = 16  DE = 24  Mut = "DropExpired"  MaxFill = 1
 SPECIFICATION Spec
-INVARIANTS MigrationFaithful NonDestructive FailureClean AmbiguityRule MigrateTotal
+INVARIANTS MigrationFaithful
 CHECK_DEADLOCK FALSE
